@@ -97,6 +97,21 @@ known_findings.json fixed + open findings;  seeded/<id>/  property-breaking chan
 * Seeded changes are run against a **scratch worktree** of `/repo` (`VERIF_REPO`, `VERIF_OUT`
   redirect the checks and their output) rather than applied to `/repo` itself, so that several can
   be evaluated while other work continues; the effect is the same as apply / run / checkout.
+* **Not only from the initial state**: C08 runs uniquify, lets definitions named like the next generated names
+  appear and the cells become shared again, and runs it a second time; C03/C05/C20 export, edit and export again;
+  C13 queries a design in which naming keys were popped again.
+* **Mixed naming policies are ordinary**: the EDIF reader leaves its netlist under the EDIF policy and restores
+  DEFAULT, so anything the user then creates and adds crosses policies.  Scenario N-MIX-EDIF (C10, C14) and a
+  C20 source cover that; the C10 model judges every scope by the policy of the tree it belongs to.
+* **Listeners come in parts**: registration follows what a listener class overrides, so C19 also runs every
+  single-hook and every all-but-one listener and compares what each is told with the all-hooks listener.
+* **A line audit** (`tools/covaudit.py`, `sys.monitoring`, env `VERIF_COV`) lists the library lines no quick check
+  executes.  It is not evidence for any property; it is how unexplored input shapes were found (the other
+  documented Verilog spellings, EDIF constructs around the netlist view, `.clock` / inout / nameless instances in
+  EBLIF - the last exposed the default-name collision repaired in 29897dc).  What it still lists is mostly error
+  text, `NotImplementedError` branches of EDIF constructs outside the netlist view, the `architecture=` option of
+  `parse` (primitive libraries: outside the listed properties) and hierarchical BLIF (the property is about flat
+  BLIF).
 * Engine B runs every case under a wall-clock alarm; a case that does not finish is retried once with four
   times the budget (busy machine) and only then reported (`case-timeout`), so that a seeded infinite loop
   in a transformation is a verdict and a slow machine is not.
